@@ -125,6 +125,12 @@ func panicValue(kind string) interface{} {
 		return map[string]int{"fortytwo-in-map": 1}
 	case "ncstruct":
 		return struct{ Xs []string }{[]string{"fortytwo-in-struct"}}
+	case "cjk":
+		// a message of 40 characters that take 120 bytes, and one of accented
+		// letters: lengths in bytes and in characters differ
+		return errors.New(strings.Repeat("\u9519\u8bef\u4fe1\u606f", 10))
+	case "accents":
+		return strings.Repeat("\u00e9\u00e8\u00fc\u00f1", 12) + "!"
 	case "typednil":
 		// a non-nil interface value holding a nil pointer whose Error method
 		// dereferences the receiver
@@ -184,6 +190,10 @@ func panicToken(kind string) string {
 		return "custom error 7"
 	case "int":
 		return "987654321"
+	case "cjk":
+		return "\u9519\u8bef\u4fe1\u606f\u9519\u8bef"
+	case "accents":
+		return "\u00e9\u00e8\u00fc\u00f1\u00e9\u00e8"
 	case "inj":
 		return "unmapped" // the unresolvable type is named (C04); the wording around it is free
 	case "before":
@@ -738,7 +748,7 @@ func js(v interface{}) string {
 	return string(b)
 }
 
-var kinds = []string{"string", "error", "runtime", "struct", "abort", "custom", "int", "typednil", "slice", "map", "ncstruct"}
+var kinds = []string{"string", "error", "runtime", "struct", "abort", "custom", "int", "typednil", "slice", "map", "ncstruct", "cjk", "accents"}
 
 func genCase(t *rapid.T) Case {
 	c := Case{
